@@ -559,6 +559,19 @@ static void record_table08(Trace& T, Rng& g, int N, int steps)
 			int e	 = (int)g.range(-45, 45);
 			int sg	 = g.coin(0.4) ? -1 : 1;
 			bool set = g.coin();
+			if(g.coin(0.25))
+			{	// a huge or tiny prefactor (|pf| ~ 1e+-270..300), as long as the scaled curve and its integral stay ordinary doubles
+				int ee		= (g.coin() ? 1 : -1) * (int)g.range(900, 995);
+				double span = t.x[N - 1] - t.x[0];
+				double big	= std::ldexp(ymax, ee) * std::max(1.0, span), small = std::ldexp(ymax, ee) * std::min(1.0, span / N);
+				if(std::isfinite(big) && big < 1e305 && small > 1e-280)
+				{
+					e	= ee;
+					set = true;
+				}
+			}
+			if(!set && std::fabs(std::log2(std::fabs(pf)) + e) > 300)
+				set = true;	  // multiplying on would leave the range in which the scaled curve is an ordinary double
 			double f = sg * std::ldexp(1.0, e);
 			if(set)
 			{
@@ -707,6 +720,30 @@ static void record_grid08(Trace& T, Rng& g)
 			v = (g.gauss() + off) * mag;
 	Interpolation_2D I(tx.x, ty.x, F), U(tx.x, ty.x, F);
 	T.emit({{"e", "Reset"}, {"N", Nx}});
+	// one long-lived object that is ASSIGNED a new table for every grid: it was the last one asked for its extrema (end of the previous
+	// grid), and is now asked again with another table -- the extrema are those of the table it holds now
+	static Interpolation_2D P;
+	{
+		P = Interpolation_2D(tx.x, ty.x, F);
+		intent("2D global extrema of an object that was assigned a new table");
+		double pmn = P.Global_Minimum(), pmx = P.Global_Maximum();
+		double tmin = INFINITY, tmax = -INFINITY;
+		for(auto& r : F)
+			for(double v : r)
+			{
+				tmin = std::min(tmin, v);
+				tmax = std::max(tmax, v);
+			}
+		double slack0 = 64 * EPS * mag * 8;
+		long below = 0, above = 0;
+		for(int k = 0; k < 30; k++)
+		{
+			double v = P(tx.x[0] + (tx.x[Nx - 1] - tx.x[0]) * g.u01(), ty.x[0] + (ty.x[Ny - 1] - ty.x[0]) * g.u01());
+			below += v < pmn - slack0;
+			above += v > pmx + slack0;
+		}
+		T.emit({{"e", "Ext"}, {"global", true}, {"below", below}, {"above", above}, {"attq", std::max(quant(tmin - pmn, slack0), quant(tmax - pmx, slack0))}, {"sg", 1}, {"ex", 0}});
+	}
 	double pf = 1.0;
 	for(int s = 0; s < 12; s++)
 	{
@@ -760,6 +797,9 @@ static void record_grid08(Trace& T, Rng& g)
 			sg = 2;
 		T.emit({{"e", "Ext"}, {"global", true}, {"below", below}, {"above", above}, {"attq", std::max(quant(smin - mn, slack), quant(smax - mx, slack))}, {"sg", sg}, {"ex", ex}});
 	}
+	// (the long-lived object is the last one asked before the next grid is assigned to it)
+	volatile double keep = P.Global_Minimum() + P.Global_Maximum();
+	(void)keep;
 }
 
 static int record08(uint64_t seed, const std::string& tier, const std::string& out)
